@@ -729,6 +729,9 @@ def consistency(fs, check_csums=True):
                     if ci:
                         ents.append((name, ci, ft))
             dirs[ino] = ents
+            if i["flags"] & INDEX_FL:
+                for msg in htree_problems(fs, ino, i, fmap):
+                    add("htree", msg)
     # directory graph: links, reachability, '.' and '..'
     for d, ents in dirs.items():
         if ents is None:
@@ -835,4 +838,174 @@ def consistency(fs, check_csums=True):
                 add("csum_gd", "group %d descriptor crc16" % g)
     if check_csums and fs.has_csum and crc32c(0xFFFFFFFF, fs.sb_raw[:0x3FC]) != fs.sb_checksum:
         add("csum_sb", "superblock checksum")
+    return bad
+
+
+# ---------------------------------------------------------------------------
+# directory hashes (the ext2/3/4 on-disk definition: legacy, half_md4, tea; signed or unsigned char), written from the
+# format description; props/c10.py compares them with debugfs dx_hash on every run
+M32 = 0xFFFFFFFF
+
+
+def _str2hashbuf(msg, num, unsigned):
+    ln = len(msg)
+    pad = (ln | (ln << 8)) & M32
+    pad = (pad | (pad << 16)) & M32
+    out = []
+    val = pad
+    if ln > num * 4:
+        ln = num * 4
+    for i in range(ln):
+        if i % 4 == 0:
+            val = pad
+        c = msg[i] if unsigned or msg[i] < 128 else msg[i] - 256
+        val = (c + (val << 8)) & M32
+        if i % 4 == 3:
+            out.append(val)
+            val = pad
+            num -= 1
+    num -= 1
+    if num >= 0:
+        out.append(val)
+    while True:
+        num -= 1
+        if num < 0:
+            break
+        out.append(pad)
+    return out
+
+
+def _tea(buf, inp):
+    s_ = 0
+    b0, b1 = buf[0], buf[1]
+    a, b, c, d = inp[0], inp[1], inp[2], inp[3]
+    for _ in range(16):
+        s_ = (s_ + 0x9E3779B9) & M32
+        b0 = (b0 + ((((b1 << 4) + a) & M32) ^ ((b1 + s_) & M32) ^ (((b1 >> 5) + b) & M32))) & M32
+        b1 = (b1 + ((((b0 << 4) + c) & M32) ^ ((b0 + s_) & M32) ^ (((b0 >> 5) + d) & M32))) & M32
+    buf[0] = (buf[0] + b0) & M32
+    buf[1] = (buf[1] + b1) & M32
+
+
+def _half_md4(buf, inp):
+    a, b, c, d = buf
+    F = lambda x, y, z: z ^ (x & (y ^ z))
+    G = lambda x, y, z: ((x & y) + ((x ^ y) & z)) & M32
+    H = lambda x, y, z: x ^ y ^ z
+    rol = lambda v, s: ((v << s) | (v >> (32 - s))) & M32
+    K2, K3 = 0o13240474631, 0o15666365641
+
+    def rnd(f, a, b, c, d, x, s):
+        return rol((a + f(b, c, d) + x) & M32, s)
+    for (f, k, order, shifts) in ((F, 0, [0, 1, 2, 3, 4, 5, 6, 7], [3, 7, 11, 19]),
+                                  (G, K2, [1, 3, 5, 7, 0, 2, 4, 6], [3, 5, 9, 13]),
+                                  (H, K3, [3, 7, 2, 6, 1, 5, 0, 4], [3, 9, 11, 15])):
+        for j, x in enumerate(order):
+            v = (inp[x] + k) & M32
+            if j % 4 == 0:
+                a = rnd(f, a, b, c, d, v, shifts[0])
+            elif j % 4 == 1:
+                d = rnd(f, d, a, b, c, v, shifts[1])
+            elif j % 4 == 2:
+                c = rnd(f, c, d, a, b, v, shifts[2])
+            else:
+                b = rnd(f, b, c, d, a, v, shifts[3])
+    buf[0] = (buf[0] + a) & M32
+    buf[1] = (buf[1] + b) & M32
+    buf[2] = (buf[2] + c) & M32
+    buf[3] = (buf[3] + d) & M32
+
+
+def dirhash(version, name, seed=None, unsigned=False):
+    """(major hash with the low bit cleared, minor hash); version 0 legacy, 1 half_md4, 2 tea (3..5: the unsigned variants)"""
+    if version in (3, 4, 5):
+        version -= 3
+        unsigned = True
+    buf = [0x67452301, 0xefcdab89, 0x98badcfe, 0x10325476]
+    if seed and any(seed):
+        buf = list(seed)
+    minor = 0
+    if version == 0:
+        h0, h1 = 0x12a3fe2d, 0x37abe8f9
+        for ch in name:
+            c = ch if unsigned or ch < 128 else ch - 256
+            h = (h1 + (h0 ^ ((c * 7152373) & M32))) & M32
+            if h & 0x80000000:
+                h = (h - 0x7fffffff) & M32
+            h1, h0 = h0, h
+        major = (h0 << 1) & M32
+    elif version == 1:
+        p_ = name
+        while True:
+            _half_md4(buf, _str2hashbuf(p_, 8, unsigned))
+            p_ = p_[32:]
+            if not p_:
+                break
+        major, minor = buf[1], buf[2]
+    elif version == 2:
+        p_ = name
+        while True:
+            _tea(buf, _str2hashbuf(p_, 4, unsigned))
+            p_ = p_[16:]
+            if not p_:
+                break
+        major, minor = buf[0], buf[1]
+    else:
+        raise FormatError("hash version %d not supported" % version)
+    return major & ~1 & M32, minor
+
+
+def htree_problems(fs, ino, inode=None, fmap=None):
+    """names of an indexed directory that lie outside the hash range of the leaf they are stored in"""
+    inode = inode or fs.inode(ino)
+    if not inode["flags"] & INDEX_FL or inode["flags"] & (INLINE_DATA_FL | 0x800 | 0x40000000):     # encrypted / casefolded: siphash
+        return []
+    if fmap is None:
+        fmap, _ = fs.file_map(ino, inode)
+    if 0 not in fmap:
+        return []
+    root = fs.block(fmap[0][0])
+    if struct.unpack_from("<I", root, 0x18)[0] != 0:
+        return []
+    version, info_len, levels = root[0x1C], root[0x1D], root[0x1E]
+    if version > 5 or levels > 3:
+        return []
+    sflags = struct.unpack_from("<I", fs.sb_raw, 0x160)[0]
+    unsigned = version <= 2 and bool(sflags & 2)
+    seed = struct.unpack_from("<4I", fs.sb_raw, 0xEC)
+
+    def entries(raw, off):
+        limit, count = struct.unpack_from("<HH", raw, off)
+        if count > limit or off + 8 * count > len(raw) or count == 0:
+            raise FormatError("count/limit")
+        out = [(0, struct.unpack_from("<I", raw, off + 4)[0] & 0x0FFFFFFF)]
+        for k in range(1, count):
+            h, b = struct.unpack_from("<II", raw, off + 8 * k)
+            out.append((h, b & 0x0FFFFFFF))
+        return out
+    bad = []
+
+    def walk(ents, level, lo, hi):
+        for k, (h, b) in enumerate(ents):
+            l_ = lo if k == 0 else h
+            h_ = ents[k + 1][0] if k + 1 < len(ents) else hi
+            if b not in fmap:
+                continue
+            raw = fs.block(fmap[b][0])
+            if level < levels:
+                walk(entries(raw, 8), level + 1, l_, h_)
+            else:
+                for (o, ci, rl, nl, ft, name) in fs.dir_block_entries(raw):
+                    if not ci or name in (b".", b".."):
+                        continue
+                    hv = dirhash(version, name, seed, unsigned)[0]
+                    if hv < (l_ & ~1) or (h_ is not None and hv > (h_ & ~1)):
+                        bad.append("inode %d: name %r (hash 0x%08x) in leaf block %d whose range is 0x%08x..%s" % (
+                            ino, name[:40], hv, b, l_, "0x%08x" % h_ if h_ is not None else "end"))
+                        if len(bad) >= 3:
+                            return
+    try:
+        walk(entries(root, 0x18 + info_len), 0, 0, None)
+    except (FormatError, struct.error, IndexError):
+        return []
     return bad
